@@ -369,3 +369,54 @@ def write_evidence(prop, tier, seed, level, coverage, assumptions, wall_s,
     with open(tmp, "w", encoding="utf8") as f:
         json.dump(ev, f, indent=1, sort_keys=True, default=_json_default)
     os.replace(tmp, os.path.join(d, "%s.json" % prop))
+
+
+# ---------------------------------------------------------------------------
+# coverage-guided engine (thorough tier): atheris drives the same property
+
+def run_atheris(mod, tier, seed, rec, seconds, procs=8):
+    """Returns (fail, note).  Never raises: an unavailable engine is noted."""
+    import subprocess
+    import shutil
+    import tempfile
+    base = tempfile.mkdtemp(prefix="vf-fuzz-", dir="/dev/shm" if
+                            os.path.isdir("/dev/shm") else None)
+    procs_ = []
+    try:
+        for k in range(procs):
+            out = os.path.join(base, "p%d" % k)
+            env = dict(os.environ, PYTHONHASHSEED="0")
+            procs_.append((out, subprocess.Popen(
+                [sys.executable, "-m", "vf.fuzz", mod.ID, "--seconds",
+                 str(seconds), "--seed", str(shard_seed(seed, mod.ID, 1000 + k)
+                                             % (2 ** 31 - 1) + 1),
+                 "--out", out, "--tier", tier],
+                cwd=VERIF_DIR, env=env, stdout=subprocess.DEVNULL,
+                stderr=subprocess.DEVNULL)))
+        fail, execs, unavailable = None, 0, 0
+        for out, p in procs_:
+            try:
+                rc = p.wait(timeout=seconds * 3 + 120)
+            except subprocess.TimeoutExpired:
+                p.kill()
+                rc = -9
+            if rc == 3:
+                unavailable += 1
+            st = os.path.join(out, "stats.json")
+            if os.path.exists(st):
+                try:
+                    d = json.load(open(st))
+                    execs += d.pop("executions", 0)
+                    rec.merge(d)
+                except Exception:
+                    pass
+            fj = os.path.join(out, "fail.json")
+            if os.path.exists(fj) and fail is None:
+                d = json.load(open(fj))
+                fail = (d["case"], d["sub"], d["msg"])
+        if unavailable == len(procs_):
+            return None, "atheris unavailable (engine not installed)"
+        return fail, ("atheris 3.1/libFuzzer via fuzz_one_input: %d processes"
+                      " x %ds, %d executions" % (len(procs_), seconds, execs))
+    finally:
+        shutil.rmtree(base, ignore_errors=True)
